@@ -30,9 +30,14 @@ def run(ctx):
                       "call the tokenizer (and the helpers that build its token list) applies accepts nothing but the ASCII "
                       "blanks a shell splits at (space, TAB, newline) - `split_whitespace` / `is_whitespace` also split "
                       "at U+3000, U+00A0, U+2003 ..., cutting a multi-byte argument in two")
+    ctx.rule("R01-6", "a complete command line is never refused on the tokenizer's say-so: the `is_complete` flag of LineInfo "
+                      "answers `should the prompt ask for another line` (it is false for every word tagged with a backslash, "
+                      "e.g. a last argument `\\$HOME`), so it is read only by the prompt's Enter handler - not by the "
+                      "planner or anything else on the way to execve")
     for crate in ctx.crates:
         escape_rule(ctx, crate)
         blank_class_rule(ctx, crate)
+        completeness_readers_rule(ctx, crate)
         from .. import ispace
         n = ispace.rule(ctx, crate, "R01-4", ["parsers::parser_line::parse_line", "parsers::parser_line::line_to_cmds"])
         ctx.require(crate.fn("parsers::parser_line::parse_line") is not None and
@@ -353,3 +358,41 @@ def blank_class_rule(ctx, crate):
                    "and newline only)" % ", ".join("U+%04X" % ord(c) for c in extra[:5]))
     ctx.ob("R01-5", "tokenizers", "%d equality tests, no wider character class in the tokenizers" % n, True, crate=crate.kind,
            nontrivial=False)
+
+
+COMPLETENESS_READERS = ("prompt::",)
+
+
+def completeness_readers_rule(ctx, crate):
+    readers = []
+    for b in crate.fns():
+        if "::tests::" in b.path:
+            continue
+        hit = None
+        for bi, si, st in b.stmts():
+            if st["k"] != "assign":
+                continue
+            for sub in mir.subexprs(b.rvalue_expr(st["rv"])):
+                if sub[0] == "field" and mir.field_name(sub) == "is_complete":
+                    hit = bi
+        for x in sorted(b.reachable):
+            for tgt, atom, val in b.switch_edges(x):
+                for sub in mir.subexprs(atom):
+                    if sub[0] == "field" and mir.field_name(sub) == "is_complete":
+                        hit = x
+        for bb, t, c in b.calls():
+            for a in b.call_args(bb):
+                for sub in mir.subexprs(a):
+                    if sub[0] == "field" and mir.field_name(sub) == "is_complete":
+                        hit = bb
+        if hit is not None:
+            readers.append((b, hit))
+    bad = [(b, bb) for b, bb in readers if not any(k in b.path for k in COMPLETENESS_READERS)]
+    for b, bb in bad:
+        ctx.ob("R01-6", b.path, "LineInfo.is_complete is read outside the prompt", False,
+               key="R01-6|%s|reads-is_complete" % b.path, where=b.loc(bb), crate=crate.kind,
+               detail="the flag is false for a finished line whose last word carries the backslash tag (`echo \\$HOME`, `echo \\|`): "
+                      "a decision taken on it on the way to execution refuses or alters a complete command")
+    if not bad:
+        ctx.ob("R01-6", "(crate)", "LineInfo.is_complete is read by the prompt only (%d reader(s))" % len(readers), True,
+               key="R01-6|crate|prompt-only", crate=crate.kind, nontrivial=True)
